@@ -1,98 +1,10 @@
 import SaModel.Lemmas.C08Loop
-import SaModel.Lemmas.C08Explore
 /-
-C08 — `from_samples` on the covering sample of an enum-free type ends in the same complete tracer as `from_type`, up to
-the sample counter of the struct nodes (`sdone`: `seen_samples = 1`), which `to_field` does not read.
-Field names must be unique within a struct (`from_samples` finds a field by name, a derive by position).
+C08 — `from_samples` on covering samples: unique names (`from_samples` finds a field by name, a derive by position),
+the field vector of a struct node, the element loop of a tuple, the covering string sample.
 -/
 namespace SaModel.Lemmas.C08
 open SaModel SaModel.Trace SaModel.Trace.Spec
-
-mutual
-/-- the complete tracer `from_samples` builds from one covering sample: `done` with `seen_samples = 1` -/
-def sdone (o : Options) (n p : String) (nl : Bool) : Ty → Tracer
-  | .unit => .primitive n p true .null none
-  | .unitStruct _ => .primitive n p true .null none
-  | .bool => .primitive n p nl .boolean none
-  | .int t => .primitive n p nl (intDataType t) none
-  | .f32 => .primitive n p nl .float32 none
-  | .f64 => .primitive n p nl .float64 none
-  | .char => .primitive n p nl .uint32 none
-  | .string => .primitive n p nl o.string_type none
-  | .bytes => .primitive n p nl .largeBinary none
-  | .option t => sdone o n p true t
-  | .newtypeStruct _ t => sdone o n p nl t
-  | .vec t => .list n p nl (sdone o "element" (childPath p "element") false t)
-  | .tuple ts => .tuple n p nl (sdoneTys o p 0 ts)
-  | .tupleStruct _ ts => .tuple n p nl (sdoneTys o p 0 ts)
-  | .map k v => .map n p nl (sdone o "key" (childPath p "key") false k) (sdone o "value" (childPath p "value") false v)
-  | .struct _ fs => .struct n p nl (sdoneFields o p fs) .struct 1
-  | .enum en vs => done o n p nl (.enum en vs)
-def sdoneTys (o : Options) (p : String) : Nat → Tys → Tracers
-  | _, .nil => .nil
-  | i, .cons t r => .cons (sdone o (toString i) (childPath p (toString i)) false t) (sdoneTys o p (i + 1) r)
-def sdoneFields (o : Options) (p : String) : TyFields → TFields
-  | .nil => .nil
-  | .cons n t r => .cons n 0 (sdone o n (childPath p n) false t) (sdoneFields o p r)
-end
-
-/-! ### `to_field`, paths and name do not see the sample counter -/
-
-mutual
-theorem sdone_to_field (o : Options) : ∀ (ty : Ty) (n p : String) (nl : Bool),
-    (sdone o n p nl ty).to_field o = (done o n p nl ty).to_field o
-  | .unit, _, _, _ | .unitStruct _, _, _, _ | .bool, _, _, _ | .int _, _, _, _ | .f32, _, _, _ | .f64, _, _, _
-  | .char, _, _, _ | .string, _, _, _ | .bytes, _, _, _ | .enum _ _, _, _, _ => by simp only [sdone, done]
-  | .option t, n, p, _ => by simp only [sdone, done]; exact sdone_to_field o t n p true
-  | .newtypeStruct _ t, n, p, nl => by simp only [sdone, done]; exact sdone_to_field o t n p nl
-  | .vec t, _, _, _ => by simp only [sdone, done, Tracer.to_field, sdone_to_field o t]
-  | .tuple ts, _, p, _ | .tupleStruct _ ts, _, p, _ => by
-    simp only [sdone, done, Tracer.to_field, sdoneTys_to_fields o ts]
-  | .map k v, _, _, _ => by simp only [sdone, done, Tracer.to_field, sdone_to_field o k, sdone_to_field o v]
-  | .struct _ fs, _, p, _ => by simp only [sdone, done, Tracer.to_field, sdoneFields_to_fields o fs]
-theorem sdoneTys_to_fields (o : Options) : ∀ (ts : Tys) (p : String) (i : Nat),
-    (sdoneTys o p i ts).to_fields o = (doneTys o p i ts).to_fields o
-  | .nil, _, _ => by simp only [sdoneTys, doneTys]
-  | .cons t r, p, i => by
-    simp only [sdoneTys, doneTys, Tracers.to_fields, sdone_to_field o t, sdoneTys_to_fields o r]
-theorem sdoneFields_to_fields (o : Options) : ∀ (fs : TyFields) (p : String),
-    (sdoneFields o p fs).to_fields o = (doneFields o p fs).to_fields o
-  | .nil, _ => by simp only [sdoneFields, doneFields]
-  | .cons _ t r, p => by
-    simp only [sdoneFields, doneFields, TFields.to_fields, sdone_to_field o t, sdoneFields_to_fields o r]
-end
-
-mutual
-theorem sdone_paths (o : Options) : ∀ (ty : Ty) (n p : String) (nl : Bool),
-    (sdone o n p nl ty).collect_paths = (done o n p nl ty).collect_paths
-  | .unit, _, _, _ | .unitStruct _, _, _, _ | .bool, _, _, _ | .int _, _, _, _ | .f32, _, _, _ | .f64, _, _, _
-  | .char, _, _, _ | .string, _, _, _ | .bytes, _, _, _ | .enum _ _, _, _, _ => by simp only [sdone, done]
-  | .option t, n, p, _ => by simp only [sdone, done]; exact sdone_paths o t n p true
-  | .newtypeStruct _ t, n, p, nl => by simp only [sdone, done]; exact sdone_paths o t n p nl
-  | .vec t, _, _, _ => by simp only [sdone, done, Tracer.collect_paths, sdone_paths o t]
-  | .tuple ts, _, p, _ | .tupleStruct _ ts, _, p, _ => by
-    simp only [sdone, done, Tracer.collect_paths, sdoneTys_paths o ts]
-  | .map k v, _, _, _ => by simp only [sdone, done, Tracer.collect_paths, sdone_paths o k, sdone_paths o v]
-  | .struct _ fs, _, p, _ => by simp only [sdone, done, Tracer.collect_paths, sdoneFields_paths o fs]
-theorem sdoneTys_paths (o : Options) : ∀ (ts : Tys) (p : String) (i : Nat),
-    (sdoneTys o p i ts).collect_paths = (doneTys o p i ts).collect_paths
-  | .nil, _, _ => by simp only [sdoneTys, doneTys]
-  | .cons t r, p, i => by
-    simp only [sdoneTys, doneTys, Tracers.collect_paths, sdone_paths o t, sdoneTys_paths o r]
-theorem sdoneFields_paths (o : Options) : ∀ (fs : TyFields) (p : String),
-    (sdoneFields o p fs).collect_paths = (doneFields o p fs).collect_paths
-  | .nil, _ => by simp only [sdoneFields, doneFields]
-  | .cons _ t r, p => by
-    simp only [sdoneFields, doneFields, TFields.collect_paths, sdone_paths o t, sdoneFields_paths o r]
-end
-
-theorem sdone_name (o : Options) : ∀ (ty : Ty) (n p : String) (nl : Bool), (sdone o n p nl ty).name = n
-  | .unit, _, _, _ | .unitStruct _, _, _, _ | .bool, _, _, _ | .int _, _, _, _ | .f32, _, _, _ | .f64, _, _, _
-  | .char, _, _, _ | .string, _, _, _ | .bytes, _, _, _ | .vec _, _, _, _ | .tuple _, _, _, _
-  | .tupleStruct _ _, _, _, _ | .map _ _, _, _, _ | .struct _ _, _, _, _ => by simp only [sdone, Tracer.name]
-  | .enum _ _, _, _, _ => by simp only [sdone, done, Tracer.name]
-  | .option t, n, p, _ => by simp only [sdone]; exact sdone_name o t n p true
-  | .newtypeStruct _ t, n, p, nl => by simp only [sdone]; exact sdone_name o t n p nl
 
 /-! ### unique field names -/
 
@@ -156,13 +68,6 @@ theorem TFields.indexOf_push_none : ∀ (a : TFields) (n : String) (l : Nat) (t 
       | none => simp only [TFields.indexOf_push_none r n l t m hr hne]; rfl
       | some i => rw [hr] at h; cases h
 
-theorem sdoneFields_end (o : Options) (p : String) : ∀ (fs : TyFields),
-    (sdoneFields o p fs).end_ 0 = sdoneFields o p fs
-  | .nil => rfl
-  | .cons n t r => by
-    simp only [sdoneFields, TFields.end_, sdoneFields_end o p r]
-    rfl
-
 /-! ### the element loop of a tuple: a prefix that is not visited stays -/
 
 theorem Tracers.set_length : ∀ (ts : Tracers) (i : Nat) (x : Tracer), (ts.set i x).length = ts.length
@@ -214,102 +119,5 @@ theorem strType_s (o : Options) : strType o "s" = o.string_type := by
     have h3 : Matchers.matches_naive_time "s" = false := by decide
     have h4 : Matchers.matches_naive_date "s" = false := by decide
     simp [h1, h2, h3, h4]
-
-mutual
-/-- absorbing the covering sample of an enum-free type into a fresh node -/
-theorem absorb_sdone (c : Code) (o : Options) (k : Nat) : ∀ (ty : Ty) (n p : String) (nl : Bool), enumFree ty = true →
-    uniqueNames ty = true → walkable o p ty = true →
-    absorb c o (.unknown n p nl) (sampleAt ty k) = .ok (sdone o n p nl ty)
-  | .unit, n, p, nl, _, _, _ | .unitStruct _, n, p, nl, _, _, _ => by
-    simp only [sampleAt, absorb, ensure_primitive_unknown, isNull, Bool.or_true, sdone]
-  | .bool, n, p, nl, _, _, _ | .char, n, p, nl, _, _, _ | .bytes, n, p, nl, _, _, _ => by
-    simp only [sampleAt, absorb, ensure_primitive_unknown, isNull, Bool.or_false, sdone]
-  | .f32, n, p, nl, _, _, _ | .f64, n, p, nl, _, _, _ => by
-    simp only [sampleAt, absorb, Tracer.ensure_number, ensure_primitive_unknown, isNull, Bool.or_false, sdone]
-  | .int t, n, p, nl, _, _, _ => by
-    simp only [sampleAt, absorb, Tracer.ensure_number, ensure_primitive_unknown, sdone]
-    cases t <;> simp only [intDataType, isNull, Bool.or_false]
-  | .string, n, p, nl, _, _, _ => by
-    simp only [sampleAt, absorb, strType_s, sdone]
-    have : isNull o.string_type = false := by unfold Options.string_type; split <;> rfl
-    simp only [Tracer.ensure_primitive_with_strategy, this, Bool.or_false]
-  | .option t, n, p, nl, hf, hu, hw => by
-    simp only [enumFree] at hf; simp only [uniqueNames] at hu; simp only [walkable] at hw
-    simp only [sampleAt, absorb, Tracer.mark_nullable, Tracer.set_nullable, sdone]
-    exact absorb_sdone c o k t n p true hf hu hw
-  | .newtypeStruct _ t, n, p, nl, hf, hu, hw => by
-    simp only [enumFree] at hf; simp only [uniqueNames] at hu; simp only [walkable] at hw
-    simp only [sampleAt, absorb, sdone]
-    exact absorb_sdone c o k t n p nl hf hu hw
-  | .vec t, n, p, nl, hf, hu, hw => by
-    simp only [enumFree] at hf; simp only [uniqueNames] at hu
-    simp only [walkable, Bool.and_eq_true, Bool.not_eq_true'] at hw
-    simp only [sampleAt, absorb, ensure_list_unknown n p nl hw.1, absorbSeq, bind, Except.bind,
-      absorb_sdone c o k t _ _ _ hf hu hw.2, sdone]
-  | .map kt vt, n, p, nl, hf, hu, hw => by
-    simp only [enumFree, Bool.and_eq_true] at hf; simp only [uniqueNames, Bool.and_eq_true] at hu
-    simp only [walkable, Bool.and_eq_true, Bool.not_eq_true'] at hw
-    simp only [sampleAt, absorb, hw.1.1.1, ensure_map_unknown n p nl hw.1.1.2, absorbEntriesAsMap, bind, Except.bind,
-      absorb_sdone c o k kt _ _ _ hf.1 hu.1 hw.1.2, absorb_sdone c o k vt _ _ _ hf.2 hu.2 hw.2, sdone,
-      Bool.false_eq_true, if_false]
-  | .tuple ts, n, p, nl, hf, hu, hw | .tupleStruct _ ts, n, p, nl, hf, hu, hw => by
-    simp only [enumFree] at hf; simp only [uniqueNames] at hu
-    simp only [walkable, Bool.and_eq_true, Bool.not_eq_true'] at hw
-    have ih := absorbTuple_sdone c o k ts p ts.length hf hu (Nat.le_refl _) (by rw [Nat.sub_self]; exact hw.2)
-    rw [Nat.sub_self] at ih
-    simp only [sampleAt, absorb, samplesTys_length, ensure_tuple_unknown c n p nl _ hw.1, bind, Except.bind, ih, sdone]
-  | .struct _ fs, n, p, nl, hf, hu, hw => by
-    simp only [enumFree] at hf; simp only [uniqueNames] at hu
-    simp only [walkable, Bool.and_eq_true, Bool.not_eq_true'] at hw
-    have ih := absorbFields_sdone c o k fs p .nil hf hu hw.2 (fun m _ => rfl)
-    simp only [TFields.append] at ih
-    simp only [sampleAt, absorb, ensure_struct_unknown c n p nl _ _ hw.1, mkStructFields, bind, Except.bind, ih,
-      sdoneFields_end, sdone]
-  | .enum _ _, _, _, _, hf, _, _ => by simp only [enumFree] at hf; cases hf
-theorem absorbTuple_sdone (c : Code) (o : Options) (k : Nat) : ∀ (ts : Tys) (p : String) (N : Nat),
-    enumFreeTys ts = true → uniqueNamesTys ts = true → ts.length ≤ N → walkableTys o p (N - ts.length) ts = true →
-    absorbTuple c o p (mkTupleFields p N ts.length) 0 (samplesTys ts k) = .ok (sdoneTys o p (N - ts.length) ts)
-  | .nil, _, _, _, _, _, _ => by simp only [samplesTys, absorbTuple, Tys.length, mkTupleFields, sdoneTys]
-  | .cons t r, p, N, hf, hu, hl, hw => by
-    simp only [enumFreeTys, Bool.and_eq_true] at hf; simp only [uniqueNamesTys, Bool.and_eq_true] at hu
-    simp only [Tys.length] at hl hw ⊢
-    have e : N - (r.length + 1) + 1 = N - r.length := by omega
-    simp only [walkableTys, Bool.and_eq_true, e] at hw
-    have h0 : 0 < (mkTupleFields p N (r.length + 1)).length := by rw [mkTupleFields_length]; omega
-    have ih := absorb_sdone c o k t (toString (N - (r.length + 1))) (childPath p (toString (N - (r.length + 1)))) false
-      hf.1 hu.1 hw.1
-    simp only [childPath] at ih
-    have ihr := absorbTuple_sdone c o k r p N hf.2 hu.2 (by omega) hw.2
-    have hs := absorbTuple_shift c o p (sdone o (toString (N - (r.length + 1)))
-      (p ++ "." ++ toString (N - (r.length + 1))) false t) (samplesTys r k) (mkTupleFields p N r.length) 0
-      (by rw [samplesTys_length, mkTupleFields_length]; omega)
-    simp only [samplesTys, absorbTuple, field_tracer_grow_id p 0 _ h0]
-    simp only [mkTupleFields, Tracers.get?, Tracer.new, ih, bind, Except.bind, Tracers.set, hs, ihr, sdoneTys, e]
-    rfl
-theorem absorbFields_sdone (c : Code) (o : Options) (k : Nat) : ∀ (fs : TyFields) (p : String) (acc : TFields),
-    enumFreeFields fs = true → uniqueNamesFields fs = true → walkableFields o p fs = true →
-    (∀ m, m ∈ fs.names → acc.indexOf m = none) →
-    absorbFields c o p 0 acc (samplesFields fs k) = .ok (TFields.append acc (sdoneFields o p fs))
-  | .nil, _, acc, _, _, _, _ => by simp only [samplesFields, absorbFields, sdoneFields, TFields.append_nil]
-  | .cons fname t r, p, acc, hf, hu, hw, hacc => by
-    simp only [enumFreeFields, Bool.and_eq_true] at hf
-    simp only [uniqueNamesFields, Bool.and_eq_true, Bool.not_eq_true'] at hu
-    simp only [walkableFields, Bool.and_eq_true] at hw
-    have hnone : acc.indexOf fname = none := hacc fname (by simp only [TyFields.names]; exact List.mem_cons_self)
-    have ih := absorb_sdone c o k t fname (childPath p fname) false hf.1 hu.1.2 hw.1
-    simp only [childPath] at ih
-    have hacc' : ∀ m, m ∈ r.names → (acc.push fname 0 (sdone o fname (p ++ "." ++ fname) false t)).indexOf m = none := by
-      intro m hm
-      refine TFields.indexOf_push_none acc fname 0 _ m (hacc m (by simp only [TyFields.names]; exact List.mem_cons_of_mem _ hm)) ?_
-      intro heq
-      subst heq
-      have := hu.1.1
-      simp only [List.contains_eq_mem, decide_eq_false_iff_not] at this
-      exact this hm
-    have ihr := absorbFields_sdone c o k r p _ hf.2 hu.2 hw.2 hacc'
-    simp only [samplesFields, absorbFields, ensure_field, hnone, Tracer.new, bne_self_eq_false, Bool.false_eq_true,
-      if_false, TFields.get?_push, ih, bind, Except.bind, TFields.set_push, ihr, TFields.push_append, sdoneFields]
-    rfl
-end
 
 end SaModel.Lemmas.C08
